@@ -11,6 +11,9 @@ pub struct SessionPoolConfig { pub check_interval: Duration, pub idle_timeout: D
 pub struct SessionHeartbeatConfig { pub interval: Duration, pub timeout: Duration }
 pub struct Client { pub password_hash: [u8; 32], pub padding: Arc<PaddingFactory>, pub pool_config: SessionPoolConfig, pub session_pool: Arc<PoolT>, pub default_seen: Arc<PaddingFactory> }
 pub struct RdHalf; pub struct WrHalf { pub ghost preamble_scheme: Option<Seq<u8>> }
+// the TLS connection to the server right after the handshake: nothing has been sent on it yet
+pub struct TlsStreamC { pub _p: () }
+pub mod tokio { pub mod io { use super::super::*; #[verifier::external_body] pub fn split(s: TlsStreamC) -> (r: (RdHalf, WrHalf)) ensures r.1.preamble_scheme is None { unimplemented!() } } }
 #[verifier::external_body]
 pub fn send_authentication(w: &mut WrHalf, h: &[u8; 32], p: &Arc<PaddingFactory>) -> (r: Result<()>)
     ensures r is Ok ==> final(w).preamble_scheme == Some(p.raw)
